@@ -17,7 +17,7 @@ def run_case(exe_path, workdir, stub, nl_text, opts=(), acc=None, flags=None, sc
     for ext, content in (('.col', col), ('.row', row)):
         p = base + ext
         if content is not None:
-            with open(p, 'w', newline='') as f:
+            with open(p, 'w', newline='', encoding='utf-8') as f:
                 f.write(content)
         elif os.path.exists(p):
             os.unlink(p)
@@ -39,7 +39,7 @@ def run_case(exe_path, workdir, stub, nl_text, opts=(), acc=None, flags=None, sc
     r = run.run_proc(cmd, timeout, env=env, cwd=workdir)
     trace = []
     if os.path.exists(base + '.trace'):
-        for l in open(base + '.trace', errors='replace'):
+        for l in open(base + '.trace', encoding='utf-8', errors='replace'):
             l = l.strip()
             if l:
                 try:
